@@ -42,20 +42,22 @@ fn classify(panic_msg: &str) -> &'static str {
 
 /// Compare one call against `want`: Some(v) = must return v; None = must panic (documented precondition).
 fn judge<T: Scalar>(s: &Section, func: &str, args: &[i128], want: Option<i128>, got: Result<T, Caught>) {
-    let site = format!("{}<{}>", func, T::NAME);
+    // the site string is built only when something is reported (it used to be formatted on every call: pure speed-up)
+    let site = || format!("{}<{}>", func, T::NAME);
     match (want, got) {
-        (Some(w), Ok(g)) => { if g.w() != w { s.violation_w(&site, "wrong-value", json!({"args": args, "got": g.w().to_string(), "want": w.to_string()}), wsum(args)); } }
-        (Some(w), Err(Caught::Panic(m))) => s.violation_w(&site, classify(&m), json!({"args": args, "want": w.to_string(), "panic": m}), wsum(args)),
-        (None, Ok(g)) => s.violation(&site, "missing-documented-panic", json!({"args": args, "got": g.w().to_string()})),
+        (Some(w), Ok(g)) => { if g.w() != w { s.violation_w(&site(), "wrong-value", json!({"args": args, "got": g.w().to_string(), "want": w.to_string()}), wsum(args)); } }
+        (Some(w), Err(Caught::Panic(m))) => s.violation_w(&site(), classify(&m), json!({"args": args, "want": w.to_string(), "panic": m}), wsum(args)),
+        (None, Ok(g)) => s.violation(&site(), "missing-documented-panic", json!({"args": args, "got": g.w().to_string()})),
         (None, Err(Caught::Panic(_))) => {}
         (_, Err(Caught::Unmodelled(w))) => s.unmodelled(w),
     }
 }
-fn judge_bool(s: &Section, site: &str, args: &[i128], want: Option<bool>, got: Result<bool, Caught>) {
+fn judge_bool<T: Scalar>(s: &Section, func: &str, args: &[i128], want: Option<bool>, got: Result<bool, Caught>) {
+    let site_s = || format!("{}<{}>", func, T::NAME);
     match (want, got) {
-        (Some(w), Ok(g)) => if g != w { s.violation(site, "wrong-value", json!({"args": args, "got": g, "want": w})) },
-        (Some(_), Err(Caught::Panic(m))) => s.violation(site, classify(&m), json!({"args": args, "panic": m})),
-        (None, Ok(g)) => s.violation(site, "missing-documented-panic", json!({"args": args, "got": g})),
+        (Some(w), Ok(g)) => if g != w { s.violation(&site_s(), "wrong-value", json!({"args": args, "got": g, "want": w})) },
+        (Some(_), Err(Caught::Panic(m))) => s.violation(&site_s(), classify(&m), json!({"args": args, "panic": m})),
+        (None, Ok(g)) => s.violation(&site_s(), "missing-documented-panic", json!({"args": args, "got": g})),
         _ => {}
     }
 }
@@ -72,7 +74,7 @@ fn ternary<T: Scalar>(s: &Section, acc: &mut Acc, v: i128, lo: i128, hi: i128, a
     let wc = ref_clamp(v, lo, hi);
     judge::<T>(s, "Clamp::clamped", &a, wc, catch(|| tv.clamped(tlo, thi)));
     let wb = wc.map(|_| lo <= v && v <= hi);
-    judge_bool(s, &format!("IsBetween::is_between<{}>", T::NAME), &a, wb, catch(|| tv.is_between(tlo, thi)));
+    judge_bool::<T>(s, "IsBetween::is_between", &a, wb, catch(|| tv.is_between(tlo, thi)));
     let ww = ref_wrapped_between(v, lo, hi);
     judge::<T>(s, "Wrap::wrapped_between", &a, ww, catch(|| tv.wrapped_between(tlo, thi)));
     let mut n = 3;
@@ -80,7 +82,7 @@ fn ternary<T: Scalar>(s: &Section, acc: &mut Acc, v: i128, lo: i128, hi: i128, a
         judge::<T>(s, "Clamp::clamp", &a, wc, catch(|| T::clamp(tv, tlo, thi)));
         judge::<T>(s, "Clamp::clamped_to_inclusive_range", &a, wc, catch(|| tv.clamped_to_inclusive_range(tlo..=thi)));
         judge::<T>(s, "Clamp::clamp_to_inclusive_range", &a, wc, catch(|| T::clamp_to_inclusive_range(tv, tlo..=thi)));
-        judge_bool(s, &format!("IsBetween::is_between_inclusive_range_bounds<{}>", T::NAME), &a, wb, catch(|| tv.is_between_inclusive_range_bounds(tlo..=thi)));
+        judge_bool::<T>(s, "IsBetween::is_between_inclusive_range_bounds", &a, wb, catch(|| tv.is_between_inclusive_range_bounds(tlo..=thi)));
         judge::<T>(s, "Wrap::wrap_between", &a, ww, catch(|| T::wrap_between(tv, tlo, thi)));
         n += 5;
         if let Some(c) = wc {
@@ -109,7 +111,7 @@ fn unary<T: Scalar>(s: &Section, v: i128) {
     let tv = T::mk(v);
     judge::<T>(s, "Clamp::clamped01", &[v], ref_clamp(v, 0, 1), catch(|| tv.clamped01()));
     judge::<T>(s, "Clamp::clamp01", &[v], ref_clamp(v, 0, 1), catch(|| T::clamp01(tv)));
-    judge_bool(s, &format!("IsBetween::is_between01<{}>", T::NAME), &[v], Some(0 <= v && v <= 1), catch(|| tv.is_between01()));
+    judge_bool::<T>(s, "IsBetween::is_between01", &[v], Some(0 <= v && v <= 1), catch(|| tv.is_between01()));
     s.evals(3, if v < 0 || v > 1 { 3 } else { 0 });
 }
 macro_rules! unary_signed { ($s:expr, $T:ty, $v:expr) => {{
@@ -291,6 +293,501 @@ macro_rules! float_suite { ($s:expr, $F:ident, $PI:expr) => {{
     s.sample(json!({"type": stringify!($F), "example": {"call": "(-1e-20).wrapped(3.0)", "law": "result in [0,3] and (x-result)/3 within 8 eps*max(|x|,3) of an integer"}}));
 }} }
 
+
+// ================================================================================================
+// Additions of the audit round (sections "... (audit)"): helpers
+// ================================================================================================
+
+// ---- exact dyadic arithmetic (arbitrary precision) for the float oracles: no case is lost to rational overflow ----
+mod big {
+    use std::cmp::Ordering::{self, *};
+    #[derive(Clone, Debug, PartialEq, Eq)]
+    pub struct Big(pub Vec<u64>); // little-endian limbs, no leading zero limb
+    impl Big {
+        fn norm(mut self) -> Big { while self.0.last() == Some(&0) { self.0.pop(); } self }
+        pub fn from_u64(x: u64) -> Big { Big(vec![x]).norm() }
+        pub fn is_zero(&self) -> bool { self.0.is_empty() }
+        pub fn bits(&self) -> usize { match self.0.last() { None => 0, Some(&t) => 64 * self.0.len() - t.leading_zeros() as usize } }
+        pub fn shl(&self, n: usize) -> Big {
+            if self.is_zero() { return Big(vec![]); }
+            let (w, b) = (n / 64, n % 64);
+            let mut v = vec![0u64; w]; let mut carry = 0u64;
+            for &l in &self.0 { if b == 0 { v.push(l); } else { v.push((l << b) | carry); carry = l >> (64 - b); } }
+            if carry != 0 { v.push(carry); }
+            Big(v).norm()
+        }
+        pub fn cmp(&self, o: &Big) -> Ordering { self.0.len().cmp(&o.0.len()).then_with(|| self.0.iter().rev().cmp(o.0.iter().rev())) }
+        pub fn add(&self, o: &Big) -> Big {
+            let n = self.0.len().max(o.0.len()); let mut v = Vec::with_capacity(n + 1); let mut c = 0u128;
+            for i in 0..n { let t = *self.0.get(i).unwrap_or(&0) as u128 + *o.0.get(i).unwrap_or(&0) as u128 + c; v.push(t as u64); c = t >> 64; }
+            if c != 0 { v.push(c as u64); }
+            Big(v).norm()
+        }
+        /// self - o, requires self >= o
+        pub fn sub(&self, o: &Big) -> Big {
+            assert!(self.cmp(o) != Less, "Big::sub underflow");
+            let mut v = Vec::with_capacity(self.0.len()); let mut borrow = 0u64;
+            for i in 0..self.0.len() {
+                let (a, b) = (self.0[i], *o.0.get(i).unwrap_or(&0));
+                let (d1, b1) = a.overflowing_sub(b); let (d2, b2) = d1.overflowing_sub(borrow);
+                v.push(d2); borrow = (b1 || b2) as u64;
+            }
+            Big(v).norm()
+        }
+        /// self mod m by shift-and-subtract
+        pub fn rem(&self, m: &Big) -> Big {
+            assert!(!m.is_zero());
+            let mut r = self.clone();
+            if r.cmp(m) == Less { return r; }
+            let sh = r.bits() - m.bits();
+            for i in (0..=sh).rev() { let t = m.shl(i); if r.cmp(&t) != Less { r = r.sub(&t); } }
+            r
+        }
+    }
+    /// signed big integer
+    #[derive(Clone, Debug)]
+    pub struct Sd { pub neg: bool, pub m: Big }
+    impl Sd {
+        pub fn new(neg: bool, m: Big) -> Sd { Sd { neg: neg && !m.is_zero(), m } }
+        pub fn negate(&self) -> Sd { Sd::new(!self.neg, self.m.clone()) }
+        pub fn abs(&self) -> Sd { Sd::new(false, self.m.clone()) }
+        pub fn add(&self, o: &Sd) -> Sd {
+            if self.neg == o.neg { return Sd::new(self.neg, self.m.add(&o.m)); }
+            match self.m.cmp(&o.m) { Less => Sd::new(o.neg, o.m.sub(&self.m)), _ => Sd::new(self.neg, self.m.sub(&o.m)) }
+        }
+        pub fn sub(&self, o: &Sd) -> Sd { self.add(&o.negate()) }
+        pub fn cmp(&self, o: &Sd) -> Ordering {
+            match (self.neg, o.neg) { (false, true) => Greater, (true, false) => Less, (false, false) => self.m.cmp(&o.m), (true, true) => o.m.cmp(&self.m) }
+        }
+        pub fn lt(&self, o: &Sd) -> bool { self.cmp(o) == Less }
+        pub fn le(&self, o: &Sd) -> bool { self.cmp(o) != Greater }
+        pub fn gt(&self, o: &Sd) -> bool { self.cmp(o) == Greater }
+        /// floor-modulo by a positive modulus: the representative in [0, p)
+        pub fn mod_floor(&self, p: &Big) -> Big { let r = self.m.rem(p); if self.neg && !r.is_zero() { p.sub(&r) } else { r } }
+    }
+    /// finite float = (-1)^neg * mant * 2^exp exactly, mant odd or zero
+    pub fn decomp(f: f64) -> (bool, u64, i32) {
+        assert!(f.is_finite());
+        let b = f.to_bits(); let neg = b >> 63 == 1; let e = ((b >> 52) & 0x7ff) as i32; let frac = b & ((1u64 << 52) - 1);
+        let (mut m, mut x) = if e == 0 { (frac, -1074) } else { (frac | (1u64 << 52), e - 1075) };
+        if m == 0 { return (false, 0, 0); }
+        let tz = m.trailing_zeros(); m >>= tz; x += tz as i32;
+        (neg, m, x)
+    }
+    /// a common unit 2^e in which every listed float is an integer
+    pub struct Units { e: i32 }
+    impl Units {
+        pub fn of(fs: &[f64]) -> Units { Units { e: fs.iter().filter(|f| **f != 0.0).map(|&f| decomp(f).2).min().unwrap_or(0) } }
+        pub fn u(&self, f: f64) -> Sd { let (n, m, x) = decomp(f); if m == 0 { return Sd::new(false, Big(vec![])); } assert!(x >= self.e, "float not in Units::of list"); Sd::new(n, Big::from_u64(m).shl((x - self.e) as usize)) }
+    }
+}
+use big::{Sd, Units};
+use std::cmp::Ordering as Ord3;
+
+/// Range law of the float wraps, exactly: r finite, lo - tolr <= r <= hi + tolr, and x - r within tolc of a multiple of
+/// the period (hi - lo).  None = holds, Some(which clause failed).
+fn wrap_law(x: f64, r: f64, lo: f64, hi: f64, tolr: f64, tolc: f64) -> Option<&'static str> {
+    if !r.is_finite() { return Some("result-not-finite"); }
+    let u = Units::of(&[x, r, lo, hi, tolr, tolc]);
+    let (xs, rs, ls, hs, tr, tc) = (u.u(x), u.u(r), u.u(lo), u.u(hi), u.u(tolr), u.u(tolc));
+    let p = hs.sub(&ls);
+    assert!(!p.neg && !p.m.is_zero(), "wrap_law: empty period");
+    if rs.lt(&ls.sub(&tr)) || rs.gt(&hs.add(&tr)) { return Some("outside-[lower,upper]"); }
+    let m = xs.sub(&rs).mod_floor(&p.m);
+    let alt = p.m.sub(&m);
+    let err = if m.cmp(&alt) == Ord3::Less { m } else { alt };
+    if Sd::new(false, err).gt(&tc) { return Some("not-congruent-to-input"); }
+    None
+}
+/// Triangle wave, exactly: |r - (up - |(x mod 2up) - up|)| <= tol
+fn pingpong_law(x: f64, r: f64, up: f64, tol: f64) -> Option<&'static str> {
+    if !r.is_finite() { return Some("result-not-finite"); }
+    let u = Units::of(&[x, r, up, tol]);
+    let (xs, rs, us, t) = (u.u(x), u.u(r), u.u(up), u.u(tol));
+    let p2 = us.add(&us);
+    let m = Sd::new(false, xs.mod_floor(&p2.m));
+    let want = us.sub(&m.sub(&us).abs());
+    if rs.sub(&want).abs().gt(&t) { return Some("not-the-triangle-wave"); }
+    None
+}
+/// Angle difference, exactly: -half - tol < r <= half + tol and (target - self) - r within tol of a multiple of 2*half,
+/// where target - self is the exact difference of the two inputs (not its rounded float value)
+fn angle_law(a: f64, b: f64, r: f64, half: f64, tol: f64) -> Option<&'static str> {
+    if !r.is_finite() { return Some("result-not-finite"); }
+    let u = Units::of(&[a, b, r, half, tol]);
+    let (ds, rs, hs, t) = (u.u(b).sub(&u.u(a)), u.u(r), u.u(half), u.u(tol));
+    if rs.le(&hs.negate().sub(&t)) || rs.gt(&hs.add(&t)) { return Some("outside-(-half,half]"); }
+    let p = hs.add(&hs);
+    let m = ds.sub(&rs).mod_floor(&p.m);
+    let alt = p.m.sub(&m);
+    let err = if m.cmp(&alt) == Ord3::Less { m } else { alt };
+    if Sd::new(false, err).gt(&t) { return Some("not-congruent-to-target-minus-self"); }
+    None
+}
+
+// ---- wider integers: stratified sweep ------------------------------------------------------------
+fn mag_bits<T: Scalar>() -> u32 { 128 - (T::MAX as u128).leading_zeros() }
+fn in_range<T: Scalar>(mut v: Vec<i128>) -> Vec<i128> { v.retain(|x| *x >= T::MIN && *x <= T::MAX); v.sort(); v.dedup(); v }
+/// value strata: +-(2^k + {-1,0,1}) for every k, 18 equidistant points of the whole range, small and "angle" values, range ends
+fn strata_values<T: Scalar>() -> Vec<i128> {
+    let mut v = vec![T::MIN, T::MIN + 1, T::MIN + 2, T::MAX - 2, T::MAX - 1, T::MAX, 0];
+    for k in 0..=mag_bits::<T>() { for d in [-1i128, 0, 1] { let x = (1i128 << k) + d; v.push(x); v.push(-x); } }
+    let step = (T::MAX - T::MIN) / 17;
+    for j in 0..=17 { v.push(T::MIN + j * step); v.push(T::MIN + j * step + 1); }
+    for x in [3i128, 5, 6, 7, 10, 11, 97, 100, 179, 180, 181, 359, 360, 361, 719, 720, 1000, 46341, 1000003, 3037000500] { v.push(x); v.push(-x); }
+    in_range::<T>(v)
+}
+/// positive bound strata (quick: a selection of the exponents; thorough: every exponent)
+fn strata_bounds<T: Scalar>(thorough: bool) -> Vec<i128> {
+    let mb = mag_bits::<T>();
+    let mut v = vec![1i128, 2, 3, 5, 7, 10, 97, 360, T::MAX / 3, T::MAX / 2, T::MAX / 2 + 1, T::MAX - 1, T::MAX];
+    let ks: Vec<u32> = if thorough { (1..=mb).collect() } else { vec![mb / 4, mb / 2, mb - 2, mb - 1, mb] };
+    for k in ks { for d in [-1i128, 0, 1] { v.push((1i128 << k) + d); } }
+    v.retain(|x| *x > 0);
+    in_range::<T>(v)
+}
+/// Valid region only (the panicking region costs ~20 us per case under contention; the boundary section and, in the
+/// thorough tier, `sweep_panics` cover it): every function and alias on ordered bounds x all value strata.
+fn sweep<T: Scalar>(s: &Section) {
+    let thorough = s.thorough();
+    let vals = strata_values::<T>();
+    let pos = strata_bounds::<T>(thorough);
+    let mut cb: Vec<i128> = pos.iter().flat_map(|&p| [p, -p]).collect(); cb.extend([T::MIN, T::MIN + 1, 0]);
+    let cb = in_range::<T>(cb);
+    cb.par_iter().for_each(|&lo| {
+        let mut acc = Acc::default();
+        for &hi in &cb { if lo > hi { continue; }
+            let wrap_ok = lo >= 0 && lo < hi;
+            let (tlo, thi) = (T::mk(lo), T::mk(hi));
+            for &v in &vals {
+                let tv = T::mk(v); let a = [v, lo, hi];
+                let wc = ref_clamp(v, lo, hi);
+                judge::<T>(s, "Clamp::clamped", &a, wc, catch(|| tv.clamped(tlo, thi)));
+                judge::<T>(s, "Clamp::clamp", &a, wc, catch(|| T::clamp(tv, tlo, thi)));
+                judge::<T>(s, "Clamp::clamped_to_inclusive_range", &a, wc, catch(|| tv.clamped_to_inclusive_range(tlo..=thi)));
+                judge::<T>(s, "Clamp::clamp_to_inclusive_range", &a, wc, catch(|| T::clamp_to_inclusive_range(tv, tlo..=thi)));
+                let wb = Some(lo <= v && v <= hi);
+                judge_bool::<T>(s, "IsBetween::is_between", &a, wb, catch(|| tv.is_between(tlo, thi)));
+                judge_bool::<T>(s, "IsBetween::is_between_inclusive_range_bounds", &a, wb, catch(|| tv.is_between_inclusive_range_bounds(tlo..=thi)));
+                let mut n = 6;
+                if wrap_ok {
+                    let ww = ref_wrapped_between(v, lo, hi);
+                    judge::<T>(s, "Wrap::wrapped_between", &a, ww, catch(|| tv.wrapped_between(tlo, thi)));
+                    judge::<T>(s, "Wrap::wrap_between", &a, ww, catch(|| T::wrap_between(tv, tlo, thi)));
+                    n += 2; acc.class("wrap-between-valid");
+                }
+                acc.evals(n, if v < lo || v > hi { n } else { 0 });
+                if v < lo { acc.class("value-below"); } else if v > hi { acc.class("value-above"); } else { acc.class("value-inside"); }
+            }
+        }
+        if lo > 0 { for &v in &vals { binary::<T>(s, &mut acc, v, lo); } }
+        acc.flush(s);
+    });
+}
+/// thorough only: the panicking region on the strata (inverted bounds, negative lower, non-positive upper)
+fn sweep_panics<T: Scalar>(s: &Section) {
+    let pos = strata_bounds::<T>(false);
+    let mut cb: Vec<i128> = pos.iter().flat_map(|&p| [p, -p]).collect(); cb.extend([T::MIN, T::MIN + 1, 0]);
+    let cb = in_range::<T>(cb);
+    cb.par_iter().for_each(|&lo| {
+        let mut acc = Acc::default();
+        for &hi in &cb { if lo < hi && lo >= 0 { continue; } for v in few::<T>(lo) { ternary::<T>(s, &mut acc, v, lo, hi, true); } }
+        if lo <= 0 { for v in few::<T>(lo) { binary::<T>(s, &mut acc, v, lo); } }
+        acc.flush(s);
+    });
+}
+/// thorough only: every (value, upper > 0) pair of a 16-bit type for wrapped and pingpong
+fn pairs16<T: Scalar>(s: &Section) {
+    let ups: Vec<i128> = (1..=T::MAX).collect();
+    ups.par_iter().for_each(|&up| {
+        let tup = T::mk(up); let mut nt = 0u64;
+        for v in T::MIN..=T::MAX {
+            let tv = T::mk(v); let a = [v, up];
+            judge::<T>(s, "Wrap::wrapped", &a, ref_wrapped(v, up), catch(|| tv.wrapped(tup)));
+            judge::<T>(s, "Wrap::pingpong", &a, ref_pingpong(v, up), catch(|| tv.pingpong(tup)));
+            if v < 0 || v >= up { nt += 2; }
+        }
+        s.evals(2 * (T::MAX - T::MIN + 1) as u64, nt);
+    });
+}
+
+/// integer delta_angle_degrees over the whole range of the type.  The result is asserted whenever the mathematical
+/// answer (the representative of target - self modulo 360 in (-180, 180]) is representable in the type.
+fn delta_deg<T: Scalar + From<u16>>(s: &Section) {
+    let mut al: Vec<i128> = vec![0, 1, -1, 10, 90, 179, 180, 181, -179, -180, -181, 270, 359, 360, 361, 540, -540, 720, 1000, -1000,
+        T::MIN, T::MIN + 1, T::MIN / 2, T::MAX / 2, T::MAX / 2 + 1, T::MAX - 1, T::MAX, T::MAX - 359, T::MAX - 180];
+    for k in [9u32, 15, 16, 31, 32, 62, 63] { for d in [-1i128, 0, 1] { al.push((1i128 << k) + d); al.push(-((1i128 << k) + d)); } }
+    let al = in_range::<T>(al);
+    for &a in &al { for &b in &al {
+        let m = (b - a).rem_euclid(360); let w = if m > 180 { m - 360 } else { m };
+        let fits = b - a >= T::MIN && b - a <= T::MAX;
+        if w < T::MIN { s.evals(1, 0); s.class("answer-not-representable(unsigned, not asserted)"); continue; }
+        s.evals(1, if (b - a).abs() > 180 { 1 } else { 0 });
+        s.class(if fits { "target-minus-self-representable" } else { "target-minus-self-not-representable(answer is)" });
+        judge::<T>(s, "Wrap::delta_angle_degrees", &[a, b], Some(w), catch(|| T::mk(a).delta_angle_degrees(T::mk(b))));
+    } }
+}
+
+// ---- floats: exact dyadic oracle on a wide alphabet ---------------------------------------------
+macro_rules! float_dyadic { ($s:expr, $F:ident, $PI:expr) => {{
+    let s: &Section = $s;
+    let thorough = s.thorough();
+    let eps = $F::EPSILON as f64;
+    let nx = |f: $F| $F::from_bits(f.to_bits() + 1);
+    let pv = |f: $F| $F::from_bits(f.to_bits() - 1);
+    let dedup = |mut v: Vec<$F>| -> Vec<$F> { v.retain(|x| x.is_finite()); v.sort_by_key(|x| x.to_bits()); v.dedup_by_key(|x| x.to_bits()); v };
+    let pi = $PI as $F;
+    let mut raw: Vec<f64> = vec![0.0, 1e-20, 0.1, 0.5, 1.0, 1.5, 2.9999998, 3.0, 4.5, 6.0, 7.25, 359.9999, 360.0, 719.5, 720.0, 1e7, 12345.678, 98765.43, 1099511627776.0, 9007199254740992.0,
+        1180591620717411303424.0, 885443715538058477568.0, 1e20, 1e30, 1e100, 1e300];
+    if thorough { for k in -70..=100 { for m in [1.0f64, 1.5, 1.9999999, 1.0000001] { raw.push(m * (2.0f64).powi(k)); } } }
+    let mut vals: Vec<$F> = Vec::new();
+    for &v in &raw { vals.push(v as $F); vals.push(-(v as $F)); }
+    let tiny: $F = (2.0 as $F).powi(-60);
+    for v in [$F::MIN_POSITIVE, $F::from_bits(1), $F::from_bits(12345), tiny, $F::EPSILON, pv(1.0), nx(1.0), pv(3.0), nx(3.0), pi, pi + pi, pv(pi + pi), nx(pi + pi), pv(360.0), nx(360.0), $F::MAX, $F::MAX / 2.0, $F::MAX / 1024.0] { vals.push(v); vals.push(-v); }
+    let vals = dedup(vals);
+    let mut ups: Vec<$F> = vec![tiny, 1e-3, 0.1, 0.5, 1.0, 3.0, nx(3.0), 7.25, pi + pi, 360.0, 1e7, 1180591620717411303424.0, 1e30, $F::MAX / 4.0, $F::MAX / 2.0, $F::MAX];
+    if thorough { for k in (-60..=100).step_by(5) { ups.push((2.0 as $F).powi(k)); ups.push(1.7 * (2.0 as $F).powi(k)); } }
+    let ups = dedup(ups);
+    // the classes under which a failure is reported: the ordinary law, or the same law on inputs whose quotient
+    // value/upper (or the doubled upper of pingpong) is not representable in the type
+    let site = |f: &str| format!("Wrap::{}<{}>", f, stringify!($F));
+    let tol = |x: $F, up: $F| -> f64 { 8.0 * eps * (x.abs() as f64).max(up as f64) };
+    ups.par_iter().for_each(|&up| { for &x in &vals {
+        // classification only (never the verdict): does the documented formula self - floor(self/upper)*upper leave the type?
+        let q_over = { let q = x / up; !q.is_finite() || !(q.floor() * up).is_finite() };
+        let t = tol(x, up);
+        s.evals(4, 4);
+        if q_over { s.class("intermediate-overflows"); } else if x < 0.0 { s.class("negative"); } else if x >= up { s.class("beyond-upper"); } else { s.class("in-range"); }
+        let class = if q_over { "result-not-finite(quotient or product overflows)" } else { "wrong-value" };
+        // the alias is judged by the same law; where the formula overflows only the primary spelling reports
+        for (f, r) in [("wrapped", catch(|| x.wrapped(up))), ("wrap", catch(|| <$F as Wrap>::wrap(x, up)))] {
+            if q_over && f == "wrap" { continue; }
+            match r {
+                Ok(r) => if let Some(why) = wrap_law(x as f64, r as f64, 0.0, up as f64, t, t) { s.violation_w(&site(f), class, json!({"x": x, "upper": up, "got": jd(&r), "failed": why}), (x.abs() as f64).log2().abs() as u64); },
+                Err(e) => s.violation(&site(f), "panic-on-valid-input", json!({"x": x, "upper": up, "err": jd(&e)})),
+            }
+        }
+        let p2 = up + up;
+        let up2_over = !p2.is_finite();
+        let pq_over = up2_over || { let q = x / p2; !q.is_finite() || !(q.floor() * p2).is_finite() };
+        let classp = if up2_over { "result-not-finite(upper+upper overflows)" } else if pq_over { "result-not-finite(quotient or product overflows)" } else { "wrong-value" };
+        if up2_over { s.class("doubled-upper-not-representable"); }
+        match catch(|| x.pingpong(up)) {
+            Ok(r) => if let Some(why) = pingpong_law(x as f64, r as f64, up as f64, 2.0 * t) { s.violation_w(&site("pingpong"), classp, json!({"x": x, "upper": up, "got": jd(&r), "failed": why}), (x.abs() as f64).log2().abs() as u64); },
+            Err(e) => s.violation(&site("pingpong"), "panic-on-valid-input", json!({"x": x, "upper": up, "err": jd(&e)})),
+        }
+    } });
+    // wrapped_between / wrap_between on every ordered pair of a bounds alphabet: lower = 0, tiny lower, adjacent bounds, far apart bounds
+    let bs = dedup(vec![0.0, tiny, 1e-3, 0.5, 1.0, 2.0, 3.0, nx(3.0), 7.25, 359.0, 360.0, 1e7, 1e30]);
+    let pairs: Vec<($F, $F)> = bs.iter().flat_map(|&lo| bs.iter().filter(move |&&hi| lo < hi).map(move |&hi| (lo, hi))).collect();
+    pairs.par_iter().for_each(|&(lo, hi)| { for &x in &vals {
+        let range = hi - lo;
+        let q_over = { let q = (x - lo) / range; !q.is_finite() || !(q.floor() * range).is_finite() };
+        let class = if q_over { "result-not-finite(quotient or product overflows)" } else { "wrong-value" };
+        let t2 = tol(x, hi);
+        s.evals(2, 2);
+        s.class(if lo == 0.0 { "lower-is-zero" } else if (range as f64) < 1e-3 * (hi as f64) { "adjacent-bounds" } else { "generic-bounds" });
+        // the period is the exact hi - lo of the text; the code's fl(hi - lo) is off by <= eps/2 * range, which after
+        // |x| / range periods is <= eps/2 * |x|: inside the tolerance, no extra slack
+        for (f, r) in [("wrapped_between", catch(|| x.wrapped_between(lo, hi))), ("wrap_between", catch(|| <$F as Wrap>::wrap_between(x, lo, hi)))] {
+            if q_over && f == "wrap_between" { continue; }
+            match r {
+                Ok(r) => if let Some(why) = wrap_law(x as f64, r as f64, lo as f64, hi as f64, t2, 2.0 * t2) { s.violation_w(&site(f), class, json!({"x": x, "lower": lo, "upper": hi, "got": jd(&r), "failed": why}), (x.abs() as f64).log2().abs() as u64); },
+                Err(e) => s.violation(&site(f), "panic-on-valid-input", json!({"x": x, "lower": lo, "upper": hi, "err": jd(&e)})),
+            }
+        }
+    } });
+    // documented panics, every function and alias: non-positive / inverted / equal / negative bounds
+    for &up in &[0.0 as $F, -0.0, -tiny, -1.0, -$F::MAX, $F::NEG_INFINITY] { for &x in &[0.0 as $F, 1.0, -5.0, 1e7] {
+        for (f, ok) in [("wrapped", catch(|| x.wrapped(up)).is_ok()), ("wrap", catch(|| <$F as Wrap>::wrap(x, up)).is_ok()), ("pingpong", catch(|| x.pingpong(up)).is_ok())] {
+            s.evals(1, 1); s.class("upper-nonpositive(must panic)");
+            if ok { s.violation(&site(f), "missing-documented-panic", json!({"x": x, "upper": up})); }
+        }
+    } }
+    for &(lo, hi) in &[(2.0 as $F, 2.0 as $F), (0.0, 0.0), (3.0, 2.0), (nx(3.0), 3.0), (-1.0, 2.0), (-tiny, 1.0), (-2.0, -1.0), ($F::NEG_INFINITY, 1.0), (1.0, 0.0), (-0.0, 0.0)] { for &x in &[0.0 as $F, 1.0, -5.0] {
+        for (f, ok) in [("wrapped_between", catch(|| x.wrapped_between(lo, hi)).is_ok()), ("wrap_between", catch(|| <$F as Wrap>::wrap_between(x, lo, hi)).is_ok())] {
+            s.evals(1, 1); s.class("bounds-invalid(must panic)");
+            if ok { s.violation(&site(f), "missing-documented-panic", json!({"x": x, "lower": lo, "upper": hi})); }
+        }
+    } }
+    // wrapped_2pi / wrap_2pi on the whole value alphabet
+    let two_pi = pi + pi;
+    for &x in &vals {
+        if !((x / two_pi).floor() * two_pi).is_finite() { continue; } // reported by the wrapped rows above
+        s.evals(2, 2);
+        let t = 2.0 * tol(x, two_pi);
+        match (catch(|| x.wrapped_2pi()), catch(|| <$F as Wrap>::wrap_2pi(x))) {
+            (Ok(r), Ok(r2)) => {
+                if let Some(why) = wrap_law(x as f64, r as f64, 0.0, two_pi as f64, t, t) { s.violation(&site("wrapped_2pi"), "wrong-value", json!({"x": x, "got": jd(&r), "failed": why})); }
+                if let Some(why) = wrap_law(x as f64, r2 as f64, 0.0, two_pi as f64, t, t) { s.violation(&site("wrap_2pi"), "wrong-value", json!({"x": x, "got": jd(&r2), "failed": why})); }
+            }
+            (a, b) => s.violation(&site("wrapped_2pi"), "panic-on-valid-input", json!({"x": x, "err": jd(&(a.err(), b.err()))})),
+        }
+    }
+    // angle differences: wide alphabet, exact law, and the sign at the closed end of (-half, half]
+    let mut angs: Vec<$F> = vec![0.0, tiny, 1e-20 as $F, 0.1, 1.0, 3.0, pv(pi), pi, nx(pi), 3.5, 6.0, pv(two_pi), two_pi, nx(two_pi), 6.5, 10.0, 100.0, 1e7, 12345.678];
+    if thorough { for k in -30..=30 { angs.push(1.3 * (2.0 as $F).powi(k)); } }
+    let angs = dedup(angs.iter().flat_map(|&a| [a, -a]).collect());
+    angs.par_iter().for_each(|&a| { for &b in &angs {
+        let d = b - a;
+        s.evals(1, if d.abs() > pi { 1 } else { 0 });
+        s.class(if d.abs() == pi { "exactly-half-turn" } else if d.abs() > pi { "needs-wrap" } else { "direct" });
+        match catch(|| a.delta_angle(b)) {
+            Ok(r) => {
+                // target - self is the exact difference; forming it in the type already costs eps/2 * max(|self|,|target|)
+                let t = 16.0 * eps * (a.abs().max(b.abs()) as f64).max(7.0);
+                if let Some(why) = angle_law(a as f64, b as f64, r as f64, pi as f64, t) { s.violation(&site("delta_angle"), "wrong-value", json!({"self": a, "target": b, "got": jd(&r), "failed": why})); }
+                if d.abs() == pi && !(r > 0.0) { s.violation(&site("delta_angle"), "half-turn-returned-at-open-end", json!({"self": a, "target": b, "got": jd(&r), "law": "(-pi, pi]: a difference of exactly -pi or pi is reported as +pi"})); }
+            }
+            Err(e) => s.violation(&site("delta_angle"), "panic-on-valid-input", json!({"self": a, "target": b, "err": jd(&e)})),
+        }
+    } });
+    let mut degs: Vec<$F> = vec![0.0, tiny, 0.25, 10.0, 89.5, 90.0, 179.75, 180.0, 180.25, 270.0, 359.5, 360.0, 360.25, 540.0, 719.875, 720.0, 1000.0, 12345.678, 1e7];
+    if thorough { for k in -30..=30 { degs.push(1.3 * (2.0 as $F).powi(k)); } }
+    let degs = dedup(degs.iter().flat_map(|&a| [a, -a]).collect());
+    degs.par_iter().for_each(|&a| { for &b in &degs {
+        let d = b - a;
+        s.evals(1, if d.abs() > 180.0 { 1 } else { 0 });
+        match catch(|| a.delta_angle_degrees(b)) {
+            Ok(r) => {
+                let t = 16.0 * eps * (a.abs().max(b.abs()) as f64).max(360.0);
+                if let Some(why) = angle_law(a as f64, b as f64, r as f64, 180.0, t) { s.violation(&site("delta_angle_degrees"), "wrong-value", json!({"self": a, "target": b, "got": jd(&r), "failed": why})); }
+                if d.abs() == 180.0 && r != 180.0 { s.violation(&site("delta_angle_degrees"), "half-turn-returned-at-open-end", json!({"self": a, "target": b, "got": jd(&r)})); }
+            }
+            Err(e) => s.violation(&site("delta_angle_degrees"), "panic-on-valid-input", json!({"self": a, "target": b, "err": jd(&e)})),
+        }
+    } });
+    // clamp / range test: all six forms on a grid with NaN, infinities, MAX, subnormals, neighbours of 1
+    let sub = $F::from_bits(1);
+    let cv: Vec<$F> = vec![$F::NEG_INFINITY, -$F::MAX, -1e30, -2.0, -nx(1.0), -1.0, -pv(1.0), -$F::MIN_POSITIVE, -sub, -0.0, 0.0, sub, $F::MIN_POSITIVE, 0.5, pv(1.0), 1.0, nx(1.0), 2.0, 1e30, $F::MAX, $F::INFINITY, $F::NAN];
+    let csite = |f: &str| format!("{}<{}>", f, stringify!($F));
+    cv.par_iter().for_each(|&lo| { for &hi in &cv { for &v in &cv {
+        let rc = [("Clamp::clamped", catch(|| v.clamped(lo, hi))), ("Clamp::clamp", catch(|| <$F as Clamp>::clamp(v, lo, hi))),
+                  ("Clamp::clamped_to_inclusive_range", catch(|| v.clamped_to_inclusive_range(lo..=hi))), ("Clamp::clamp_to_inclusive_range", catch(|| <$F as Clamp>::clamp_to_inclusive_range(v, lo..=hi)))];
+        let rb = [("IsBetween::is_between", catch(|| v.is_between(lo, hi))), ("IsBetween::is_between_inclusive_range_bounds", catch(|| v.is_between_inclusive_range_bounds(lo..=hi)))];
+        s.evals(6, if v < lo || v > hi { 6 } else { 0 });
+        if !(lo <= hi) {
+            // "panics exactly when the bounds are not ordered lower <= upper": includes a NaN bound
+            s.class(if lo.is_nan() || hi.is_nan() { "nan-bound(must panic)" } else { "bounds-inverted(must panic)" });
+            for (f, r) in rc { if r.is_ok() { s.violation(&csite(f), if lo.is_nan() || hi.is_nan() { "missing-documented-panic(nan bound)" } else { "missing-documented-panic" }, json!({"v": jd(&v), "lo": jd(&lo), "hi": jd(&hi)})); } }
+            for (f, r) in rb { if r.is_ok() { s.violation(&csite(f), if lo.is_nan() || hi.is_nan() { "missing-documented-panic(nan bound)" } else { "missing-documented-panic" }, json!({"v": jd(&v), "lo": jd(&lo), "hi": jd(&hi)})); } }
+        } else if v.is_nan() {
+            // ordered bounds: no panic ("panics exactly when..."); which value clamp returns is left open by the text, but clamp
+            // must agree with the range test: clamp hands back the value itself iff the range test accepts it (NaN is never handed back)
+            s.class("nan-value");
+            let mut kept = false;
+            for (f, r) in rc { match r { Ok(g) => { if g.to_bits() == v.to_bits() { kept = true; } }, Err(_) => s.violation(&csite(f), "panic-on-valid-input", json!({"v": jd(&v), "lo": jd(&lo), "hi": jd(&hi)})) } }
+            for (f, r) in rb { match r { Ok(b) => if b != kept { s.violation(&csite(f), "disagrees-with-clamp(nan value)", json!({"v": jd(&v), "lo": jd(&lo), "hi": jd(&hi), "range test": b, "clamp returned the value itself": kept})); }, Err(_) => s.violation(&csite(f), "panic-on-valid-input", json!({"v": jd(&v), "lo": jd(&lo), "hi": jd(&hi)})) } }
+        } else {
+            s.class("bounds-ordered");
+            let want = if v < lo { lo } else if v > hi { hi } else { v };
+            let inside = lo <= v && v <= hi;
+            for (f, r) in rc { match r {
+                Ok(g) => {
+                    if g != want { s.violation(&csite(f), "wrong-value", json!({"v": jd(&v), "lo": jd(&lo), "hi": jd(&hi), "got": jd(&g), "want": jd(&want)})); }
+                    // idempotent, agrees with the range test (on the real code)
+                    if catch(|| g.clamped(lo, hi)).ok() != Some(g) { s.violation(&csite(f), "not-idempotent", json!({"v": jd(&v), "lo": jd(&lo), "hi": jd(&hi)})); }
+                    if catch(|| g.is_between(lo, hi)).ok() != Some(true) { s.violation(&csite(f), "result-outside-range-test", json!({"v": jd(&v), "lo": jd(&lo), "hi": jd(&hi)})); }
+                    if (g == v) != inside { s.violation(&csite(f), "disagrees-with-range-test", json!({"v": jd(&v), "lo": jd(&lo), "hi": jd(&hi)})); }
+                }
+                Err(e) => s.violation(&csite(f), "panic-on-valid-input", json!({"v": jd(&v), "lo": jd(&lo), "hi": jd(&hi), "err": jd(&e)})),
+            } }
+            for (f, r) in rb { match r { Ok(g) => if g != inside { s.violation(&csite(f), "wrong-value", json!({"v": jd(&v), "lo": jd(&lo), "hi": jd(&hi), "got": g})); }, Err(e) => s.violation(&csite(f), "panic-on-valid-input", json!({"v": jd(&v), "lo": jd(&lo), "hi": jd(&hi), "err": jd(&e)})) } }
+        }
+    } } });
+    s.sample(json!({"type": stringify!($F), "values": vals.len(), "uppers": ups.len(), "between-pairs": pairs.len(), "angles": angs.len(), "degrees": degs.len(), "clamp grid": cv.len()}));
+}} }
+
+// ---- vector lifts: every vector type, every lane, every trait form ---------------------------------
+use vx::vecs::VecN;
+macro_rules! when { (yes $b:block) => { $b }; (no $b:block) => {}; }
+macro_rules! lift_all { ($s:expr, $T:ty, $tn:expr, signed: $sg:ident, float: $fl:ident, $tr:expr, $benign:expr, $hot:expr, $bad:expr) => {{
+    let s: &Section = $s; let full = s.thorough();
+    let tr: Vec<($T, $T, $T)> = $tr; let benign: ($T, $T, $T) = $benign; let hot: Vec<($T, $T, $T)> = $hot; let bad: Vec<($T, $T, $T)> = $bad;
+    vx::for_all_vecs!(V => {
+        type VT = V<$T>; type VB = V<bool>;
+        let n = <VT as VecN<$T>>::N; let vname = <VT as VecN<$T>>::NAME;
+        let mut cases: Vec<(&'static str, Vec<($T, $T, $T)>)> = Vec::new();
+        for r in 0..tr.len() { for step in [1usize, 5] { cases.push(("rotation", (0..n).map(|i| tr[(r + step * i) % tr.len()]).collect())); } }
+        for p in 0..n { for h in &hot { let mut l = vec![benign; n]; l[p] = *h; cases.push(("one-hot-lane", l)); } }
+        // quick: the two bad triples alternate over the lane positions (both at the first and the last lane); thorough: both everywhere
+        for p in 0..n { for (bi, b) in bad.iter().enumerate() { if full || p == 0 || p == n - 1 || bi == p % 2 { let mut l = vec![benign; n]; l[p] = *b; cases.push(("one-bad-lane(must panic)", l)); } } }
+        for (kind, l) in &cases {
+            s.class(kind);
+            // a panicking call costs ~20 us: in the quick tier the must-panic cases run the ten primary spellings only
+            let aliases = full || *kind != "one-bad-lane(must panic)";
+            let mkv = |f: &dyn Fn(&($T, $T, $T)) -> $T| -> VT { <VT as VecN<$T>>::from_elems(l.iter().map(f).collect()) };
+            let (v, lo, hi) = (mkv(&|t| t.0), mkv(&|t| t.1), mkv(&|t| t.2));
+            let (b0, c0) = (l[0].1, l[0].2);
+            let de = |x: VT| -> Vec<$T> { <VT as VecN<$T>>::into_elems(x) };
+            let deb = |x: VB| -> Vec<bool> { <VB as VecN<bool>>::into_elems(x) };
+            let lanes = |f: &dyn Fn($T, $T, $T) -> $T| -> Option<Vec<$T>> { l.iter().map(|&(a, b, c)| catch(|| f(a, b, c)).ok()).collect() };
+            let lanesb = |f: &dyn Fn($T, $T, $T) -> bool| -> Option<Vec<bool>> { l.iter().map(|&(a, b, c)| catch(|| f(a, b, c)).ok()).collect() };
+            let site = |name: &str| format!("{}<{}<{}>>", name, vname, $tn);
+            let chk = |name: &str, got: Result<Vec<$T>, Caught>, want: Option<Vec<$T>>| {
+                s.eval(true);
+                match (got, want) {
+                    (Ok(g), Some(w)) => if g != w { s.violation_w(&site(name), "lane-differs-from-scalar-law", json!({"lanes(value,lower,upper)": jd(l), "got": jd(&g), "want": jd(&w)}), n as u64); },
+                    (Err(_), None) => {},
+                    (Ok(g), None) => s.violation_w(&site(name), "missing-panic", json!({"lanes(value,lower,upper)": jd(l), "got": jd(&g)}), n as u64),
+                    (Err(e), Some(_)) => s.violation_w(&site(name), "panic-on-valid-input", json!({"lanes(value,lower,upper)": jd(l), "err": jd(&e)}), n as u64),
+                }
+            };
+            let chkb = |name: &str, got: Result<Vec<bool>, Caught>, want: Option<Vec<bool>>| {
+                s.eval(true);
+                match (got, want) {
+                    (Ok(g), Some(w)) => if g != w { s.violation_w(&site(name), "lane-differs-from-scalar-law", json!({"lanes(value,lower,upper)": jd(l), "got": jd(&g), "want": jd(&w)}), n as u64); },
+                    (Err(_), None) => {},
+                    (Ok(g), None) => s.violation_w(&site(name), "missing-panic", json!({"lanes(value,lower,upper)": jd(l), "got": jd(&g)}), n as u64),
+                    (Err(e), Some(_)) => s.violation_w(&site(name), "panic-on-valid-input", json!({"lanes(value,lower,upper)": jd(l), "err": jd(&e)}), n as u64),
+                }
+            };
+            // --- vector bounds (Bound = the vector type): lane i uses lane i's bounds
+            chk("Clamp::clamped(vec bounds)", catch(|| de(<VT as Clamp<VT>>::clamped(v, lo, hi))), lanes(&|a, b, c| a.clamped(b, c)));
+            if aliases { chk("Clamp::clamp(vec bounds)", catch(|| de(<VT as Clamp<VT>>::clamp(v, lo, hi))), lanes(&|a, b, c| a.clamped(b, c))); }
+            if aliases { chk("Clamp::clamped_to_inclusive_range(vec bounds)", catch(|| de(<VT as Clamp<VT>>::clamped_to_inclusive_range(v, lo..=hi))), lanes(&|a, b, c| a.clamped(b, c))); }
+            if aliases { chk("Clamp::clamp_to_inclusive_range(vec bounds)", catch(|| de(<VT as Clamp<VT>>::clamp_to_inclusive_range(v, lo..=hi))), lanes(&|a, b, c| a.clamped(b, c))); }
+            if aliases { chk("Clamp::clamped01(vec bounds)", catch(|| de(<VT as Clamp<VT>>::clamped01(v))), lanes(&|a, _, _| a.clamped01())); }
+            if aliases { chk("Clamp::clamp01(vec bounds)", catch(|| de(<VT as Clamp<VT>>::clamp01(v))), lanes(&|a, _, _| a.clamped01())); }
+            chkb("IsBetween::is_between(vec bounds)", catch(|| deb(<VT as IsBetween<VT>>::is_between(v, lo, hi))), lanesb(&|a, b, c| a.is_between(b, c)));
+            if aliases { chkb("IsBetween::is_between_inclusive_range_bounds(vec bounds)", catch(|| deb(<VT as IsBetween<VT>>::is_between_inclusive_range_bounds(v, lo..=hi))), lanesb(&|a, b, c| a.is_between(b, c))); }
+            if aliases { chkb("IsBetween::is_between01(vec bounds)", catch(|| deb(<VT as IsBetween<VT>>::is_between01(v))), lanesb(&|a, _, _| a.is_between01())); }
+            chk("Wrap::wrapped(vec bound)", catch(|| de(<VT as Wrap<VT>>::wrapped(v, hi))), lanes(&|a, _, c| a.wrapped(c)));
+            if aliases { chk("Wrap::wrap(vec bound)", catch(|| de(<VT as Wrap<VT>>::wrap(v, hi))), lanes(&|a, _, c| a.wrapped(c))); }
+            chk("Wrap::wrapped_between(vec bounds)", catch(|| de(<VT as Wrap<VT>>::wrapped_between(v, lo, hi))), lanes(&|a, b, c| a.wrapped_between(b, c)));
+            chk("Wrap::pingpong(vec bound)", catch(|| de(<VT as Wrap<VT>>::pingpong(v, hi))), lanes(&|a, _, c| a.pingpong(c)));
+            // --- scalar bounds (Bound = the element type): lane 0's bounds broadcast to every lane
+            chk("Clamp::clamped(scalar bounds)", catch(|| de(<VT as Clamp<$T>>::clamped(v, b0, c0))), lanes(&|a, _, _| a.clamped(b0, c0)));
+            if aliases { chk("Clamp::clamp(scalar bounds)", catch(|| de(<VT as Clamp<$T>>::clamp(v, b0, c0))), lanes(&|a, _, _| a.clamped(b0, c0))); }
+            if aliases { chk("Clamp::clamped_to_inclusive_range(scalar bounds)", catch(|| de(<VT as Clamp<$T>>::clamped_to_inclusive_range(v, b0..=c0))), lanes(&|a, _, _| a.clamped(b0, c0))); }
+            if aliases { chk("Clamp::clamp_to_inclusive_range(scalar bounds)", catch(|| de(<VT as Clamp<$T>>::clamp_to_inclusive_range(v, b0..=c0))), lanes(&|a, _, _| a.clamped(b0, c0))); }
+            if aliases { chk("Clamp::clamped01(scalar bounds)", catch(|| de(<VT as Clamp<$T>>::clamped01(v))), lanes(&|a, _, _| a.clamped01())); }
+            if aliases { chk("Clamp::clamp01(scalar bounds)", catch(|| de(<VT as Clamp<$T>>::clamp01(v))), lanes(&|a, _, _| a.clamped01())); }
+            chkb("IsBetween::is_between(scalar bounds)", catch(|| deb(<VT as IsBetween<$T>>::is_between(v, b0, c0))), lanesb(&|a, _, _| a.is_between(b0, c0)));
+            if aliases { chkb("IsBetween::is_between_inclusive_range_bounds(scalar bounds)", catch(|| deb(<VT as IsBetween<$T>>::is_between_inclusive_range_bounds(v, b0..=c0))), lanesb(&|a, _, _| a.is_between(b0, c0))); }
+            if aliases { chkb("IsBetween::is_between01(scalar bounds)", catch(|| deb(<VT as IsBetween<$T>>::is_between01(v))), lanesb(&|a, _, _| a.is_between01())); }
+            chk("Wrap::wrapped(scalar bound)", catch(|| de(<VT as Wrap<$T>>::wrapped(v, c0))), lanes(&|a, _, _| a.wrapped(c0)));
+            if aliases { chk("Wrap::wrap(scalar bound)", catch(|| de(<VT as Wrap<$T>>::wrap(v, c0))), lanes(&|a, _, _| a.wrapped(c0))); }
+            chk("Wrap::wrapped_between(scalar bounds)", catch(|| de(<VT as Wrap<$T>>::wrapped_between(v, b0, c0))), lanes(&|a, _, _| a.wrapped_between(b0, c0)));
+            if aliases { chk("Wrap::wrap_between(scalar bounds)", catch(|| de(<VT as Wrap<$T>>::wrap_between(v, b0, c0))), lanes(&|a, _, _| a.wrapped_between(b0, c0))); }
+            chk("Wrap::pingpong(scalar bound)", catch(|| de(<VT as Wrap<$T>>::pingpong(v, c0))), lanes(&|a, _, _| a.pingpong(c0)));
+            when!($sg {
+                if aliases { chk("Clamp::clamped_minus1_1(vec bounds)", catch(|| de(<VT as Clamp<VT>>::clamped_minus1_1(v))), lanes(&|a, _, _| a.clamped_minus1_1())); }
+                if aliases { chk("Clamp::clamp_minus1_1(vec bounds)", catch(|| de(<VT as Clamp<VT>>::clamp_minus1_1(v))), lanes(&|a, _, _| a.clamped_minus1_1())); }
+                if aliases { chk("Clamp::clamped_minus1_1(scalar bounds)", catch(|| de(<VT as Clamp<$T>>::clamped_minus1_1(v))), lanes(&|a, _, _| a.clamped_minus1_1())); }
+                if aliases { chk("Clamp::clamp_minus1_1(scalar bounds)", catch(|| de(<VT as Clamp<$T>>::clamp_minus1_1(v))), lanes(&|a, _, _| a.clamped_minus1_1())); }
+            });
+            when!($fl {
+                if aliases { chk("Wrap::wrapped_2pi(scalar bound)", catch(|| de(<VT as Wrap<$T>>::wrapped_2pi(v))), lanes(&|a, _, _| a.wrapped_2pi())); }
+                if aliases { chk("Wrap::wrap_2pi(scalar bound)", catch(|| de(<VT as Wrap<$T>>::wrap_2pi(v))), lanes(&|a, _, _| a.wrapped_2pi())); }
+            });
+            // the vector spellings of partial_min / partial_max (src/vec.rs) use the free functions per lane
+            if aliases { chk("partial_min(vector)", catch(|| de(VT::partial_min(v, lo))), lanes(&|a, b, _| vek::ops::partial_min(a, b))); }
+            if aliases { chk("partial_max(vector)", catch(|| de(VT::partial_max(v, hi))), lanes(&|a, _, c| vek::ops::partial_max(a, c))); }
+        }
+    });
+}} }
+
 fn main() {
     let rep = Report::start("C17", "exploration");
     let r8 = "every (value, lower, upper) triple of the 8-bit domain for the ternary functions (quick: where the bounds are inverted, so that every function must panic, 8 boundary values per (lower,upper) pair; thorough: all 2^24), every (value, upper) pair for wrapped/wrap/pingpong, every value for the unary forms; oracle rem_euclid / triangle wave in i128; panic <=> documented precondition violated; non-trivial: value outside the range";
@@ -376,6 +873,102 @@ fn main() {
             lift!(Vec4, 4, [x 0, y 1, z 2, w 3]);
         }
         s.sample(json!({"lanes (value,lower,upper)": jd(&lanes[0]), "law": "Vec4{..}.clamped(lo,hi).lane_i == value_i.clamped(lo_i,hi_i)"}));
+    });
+
+    // ============================ audit round: added sections ============================
+    rep.section("wider integers, stratified sweep (audit)", "per 16/32/64/pointer-width type and Wrapping form: value strata {+-(2^k+{-1,0,1}) for every k, 18 equidistant points of the range, range ends, small/angle/sqrt(MAX) values} x ordered bound pairs from {+-(2^k+{-1,0,1}), MAX/3, MAX/2, MAX-1, MAX, small primes, 360, MIN, 0} (quick: 5 exponents, thorough: every exponent): all four clamp forms, both range tests, and for 0 <= lower < upper wrapped_between/wrap_between; wrapped/wrap/pingpong on value strata x positive bounds; thorough adds the panicking region on the strata and EVERY (value, upper>0) pair of i16/u16/Wrapping<i16>/Wrapping<u16> for wrapped and pingpong; oracle rem_euclid / triangle wave in i128; non-trivial: value outside the range", true, false, |s| {
+        s.require_classes(&["wrap-between-valid", "value-below", "value-above", "value-inside", "negative-value", "value-beyond-upper", "value-in-range"]);
+        sweep::<i16>(s); sweep::<u16>(s); sweep::<i32>(s); sweep::<u32>(s); sweep::<i64>(s); sweep::<u64>(s); sweep::<isize>(s); sweep::<usize>(s);
+        sweep::<Wrapping<i16>>(s); sweep::<Wrapping<u16>>(s); sweep::<Wrapping<i32>>(s); sweep::<Wrapping<u32>>(s); sweep::<Wrapping<i64>>(s); sweep::<Wrapping<u64>>(s); sweep::<Wrapping<isize>>(s); sweep::<Wrapping<usize>>(s);
+        // unary forms on the value strata of every wider type (the first round had i16/i32/i64 and Wrapping<i32> only for minus1_1)
+        macro_rules! un { ($($T:ty)*) => { $( for v in strata_values::<$T>() { unary::<$T>(s, v); } )* } }
+        un!(i16 u16 i32 u32 i64 u64 isize usize Wrapping<i16> Wrapping<u16> Wrapping<i32> Wrapping<u32> Wrapping<i64> Wrapping<u64> Wrapping<isize> Wrapping<usize>);
+        macro_rules! uns { ($($T:ty)*) => { $( for v in strata_values::<$T>() { unary_signed!(s, $T, v); } )* } }
+        uns!(i16 i32 i64 isize Wrapping<i16> Wrapping<i32> Wrapping<i64> Wrapping<isize>);
+        if s.thorough() {
+            sweep_panics::<i16>(s); sweep_panics::<u16>(s); sweep_panics::<i32>(s); sweep_panics::<u32>(s); sweep_panics::<i64>(s); sweep_panics::<u64>(s); sweep_panics::<isize>(s); sweep_panics::<usize>(s);
+            sweep_panics::<Wrapping<i16>>(s); sweep_panics::<Wrapping<u16>>(s); sweep_panics::<Wrapping<i32>>(s); sweep_panics::<Wrapping<u32>>(s); sweep_panics::<Wrapping<i64>>(s); sweep_panics::<Wrapping<u64>>(s); sweep_panics::<Wrapping<isize>>(s); sweep_panics::<Wrapping<usize>>(s);
+            pairs16::<i16>(s); pairs16::<u16>(s); pairs16::<Wrapping<i16>>(s); pairs16::<Wrapping<u16>>(s);
+        }
+        s.sample(json!({"type": "i64", "value strata": strata_values::<i64>().len(), "positive bound strata": strata_bounds::<i64>(s.thorough()).len()}));
+    });
+
+    rep.section("integer delta_angle_degrees, whole range of every implementing type (audit)", "every integer type for which the method exists (Self: From<u16>: i32 i64 u16 u32 u64 usize; i8/i16/u8/isize and the Wrapping forms do not satisfy the bound): all ordered pairs of {the +-1000 degree alphabet, MIN, MIN+1, MIN/2, MAX/2, MAX-359, MAX-180, MAX-1, MAX, +-(2^k+{-1,0,1})}; asserted whenever the representative of target-self modulo 360 in (-180,180] is representable in the type (always for signed types; for unsigned types when it is >= 0); non-trivial: |target-self| > 180", true, false, |s| {
+        s.require_classes(&["target-minus-self-representable", "target-minus-self-not-representable(answer is)", "answer-not-representable(unsigned, not asserted)"]);
+        delta_deg::<i32>(s); delta_deg::<i64>(s); delta_deg::<u16>(s); delta_deg::<u32>(s); delta_deg::<u64>(s); delta_deg::<usize>(s);
+        s.sample(json!({"call": "350u32.delta_angle_degrees(10)", "want": 20}));
+        s.sample(json!({"call": "i32::MAX.delta_angle_degrees(i32::MIN)", "want": ((i32::MIN as i128 - i32::MAX as i128).rem_euclid(360)).to_string()}));
+    });
+
+    let rd = "exact arbitrary-precision dyadic oracle (no case lost to rational overflow): value alphabet {+-0, +-min subnormal, +-MIN_POSITIVE, +-2^-60, +-1e-20, +-EPSILON, neighbours of 1, 3, 2pi, 360, exact multiples, 2^40, 2^53, 2^70, 1e20, 1e30, (1e100, 1e300), MAX/1024, MAX/2, MAX} (thorough: + four mantissas x 2^k, k=-70..100) x uppers {2^-60, 1e-3, .1, .5, 1, 3, next(3), 7.25, 2pi, 360, 1e7, 2^70, 1e30, MAX/4, MAX/2, MAX}: wrapped/wrap in [0,upper] and congruent within 8 eps max(|x|,upper), pingpong = triangle wave within 16 eps max; wrapped_between/wrap_between on every ordered pair of {0, 2^-60, 1e-3, .5, 1, 2, 3, next(3), 7.25, 359, 360, 1e7, 1e30}; inputs on which the documented formula self - floor(self/upper)*upper (or upper+upper) leaves the type are reported under their own class; documented panics of all five wrap forms; wrapped_2pi/wrap_2pi on the value alphabet; delta_angle(_degrees) on wide non-integer alphabets with the sign at the closed end of (-pi,pi]; the four clamp forms and two range tests on a 22^3 grid incl. NaN (NaN bound must panic, NaN value: no panic, range test and clamp agree), idempotence and agreement with the range test on the real code";
+    rep.section("f64, exact dyadic oracle (audit)", rd, true, false, |s| { s.require_classes(&["negative", "beyond-upper", "in-range", "intermediate-overflows", "doubled-upper-not-representable", "lower-is-zero", "adjacent-bounds", "generic-bounds", "exactly-half-turn", "needs-wrap", "direct", "nan-bound(must panic)", "nan-value", "bounds-inverted(must panic)", "bounds-ordered", "upper-nonpositive(must panic)", "bounds-invalid(must panic)"]); float_dyadic!(s, f64, std::f64::consts::PI) });
+    rep.section("f32, exact dyadic oracle (audit)", rd, true, false, |s| { s.require_classes(&["negative", "beyond-upper", "in-range", "intermediate-overflows", "doubled-upper-not-representable", "lower-is-zero", "adjacent-bounds", "generic-bounds", "exactly-half-turn", "needs-wrap", "direct", "nan-bound(must panic)", "nan-value"]); float_dyadic!(s, f32, std::f32::consts::PI) });
+
+    rep.section("partial_min / partial_max, every primitive type and non-Copy operands (audit)", "all ordered pairs of the range ends, +-1, 0 and a mid value for every integer type and their Wrapping forms, of an f32 alphabet, and of String / tuple operands (the functions are generic over PartialOrd + Sized): the result equals the smaller / larger operand; ties and NaN are left open by the text", true, false, |s| {
+        macro_rules! pm { ($($T:ty)*) => { $( {
+            let al = few::<$T>(<$T as Scalar>::MAX / 3);
+            for &a in &al { for &b in &al { s.evals(2, if a != b { 2 } else { 0 });
+                let (ta, tb) = (<$T as Scalar>::mk(a), <$T as Scalar>::mk(b));
+                if vek::ops::partial_min(ta, tb).w() != a.min(b) { s.violation(&format!("partial_min<{}>", <$T as Scalar>::NAME), "wrong-value", json!({"a": a.to_string(), "b": b.to_string()})); }
+                if vek::ops::partial_max(ta, tb).w() != a.max(b) { s.violation(&format!("partial_max<{}>", <$T as Scalar>::NAME), "wrong-value", json!({"a": a.to_string(), "b": b.to_string()})); }
+            } }
+        } )* } }
+        pm!(i8 u8 i16 u16 i32 u32 i64 u64 isize usize Wrapping<i8> Wrapping<u8> Wrapping<i16> Wrapping<u16> Wrapping<i32> Wrapping<u32> Wrapping<i64> Wrapping<u64> Wrapping<isize> Wrapping<usize>);
+        let fl = [f32::NEG_INFINITY, -f32::MAX, -1.5, -f32::MIN_POSITIVE, 0.0, f32::from_bits(1), 1.0, 1.0 + f32::EPSILON, f32::MAX, f32::INFINITY];
+        for &a in &fl { for &b in &fl { s.evals(2, if a != b { 2 } else { 0 });
+            if vek::ops::partial_min(a, b) != a.min(b) { s.violation("partial_min<f32>", "wrong-value", json!({"a": jd(&a), "b": jd(&b)})); }
+            if vek::ops::partial_max(a, b) != a.max(b) { s.violation("partial_max<f32>", "wrong-value", json!({"a": jd(&a), "b": jd(&b)})); } } }
+        let st = ["", "a", "ab", "b", "B"];
+        for a in st { for b in st { s.evals(2, if a != b { 2 } else { 0 });
+            if vek::ops::partial_min(a.to_string(), b.to_string()) != std::cmp::min(a, b) { s.violation("partial_min<String>", "wrong-value", json!({"a": a, "b": b})); }
+            if vek::ops::partial_max(a.to_string(), b.to_string()) != std::cmp::max(a, b) { s.violation("partial_max<String>", "wrong-value", json!({"a": a, "b": b})); }
+            for (x, y) in [(1u8, 2u8), (2, 1)] { s.evals(2, 2);
+                if vek::ops::partial_min((x, a), (y, b)) != std::cmp::min((x, a), (y, b)) { s.violation("partial_min<(u8,&str)>", "wrong-value", json!({"a": jd(&(x, a)), "b": jd(&(y, b))})); }
+                if vek::ops::partial_max((x, a), (y, b)) != std::cmp::max((x, a), (y, b)) { s.violation("partial_max<(u8,&str)>", "wrong-value", json!({"a": jd(&(x, a)), "b": jd(&(y, b))})); } }
+        } }
+        // the marker traits of the anchored range are implemented by the blanket impls for exactly the stated bounds
+        fn markers_signed<T: vek::ops::Clamp01 + vek::ops::ClampMinus1 + vek::ops::IsBetween01>() {}
+        fn markers_unsigned<T: vek::ops::Clamp01 + vek::ops::IsBetween01>() {}
+        markers_signed::<i8>(); markers_signed::<i64>(); markers_signed::<f32>(); markers_signed::<f64>(); markers_signed::<Wrapping<i32>>(); markers_unsigned::<u8>(); markers_unsigned::<usize>(); markers_unsigned::<Wrapping<u16>>();
+        s.sample(json!({"partial_min(\"ab\", \"b\")": "ab"}));
+    });
+
+    rep.section("vector lifts: every vector type, every lane, every trait form (audit)", "all 13 vector types (Vec2/3/4/8/16/32/64, Extent2/3, Rgb, Rgba, Uv, Uvw; repr_c, the only layout that builds on stable) x element types {i32, u8, i64, Wrapping<i16>, f32, f64}: (a) rotations of a 13-triple alphabet with lane strides 1 and 5 (different (value,lower,upper) in neighbouring lanes, range ends of the element type included), (b) one hot lane at every position (all other lanes in range), (c) one lane with inverted / empty bounds at every position (the call must panic); every provided and defaulted method of Clamp, IsBetween and Wrap in the vector-bound and the scalar-bound (broadcast) spelling, plus the vector partial_min/partial_max: lane i equals the scalar method on lane i's arguments, and the call panics iff some lane's scalar call panics; non-trivial: every case", true, false, |s| {
+        s.require_classes(&["rotation", "one-hot-lane", "one-bad-lane(must panic)"]);
+        rayon::scope(|sc| {
+        sc.spawn(move |_| {
+        lift_all!(s, i32, "i32", signed: yes, float: no,
+            vec![(5, 0, 3), (-4, 2, 5), (0, 0, 1), (-1, 0, 10), (11, 0, 10), (3, 1, 4), (-7, 3, 9), (100, 1, 2), (2, 2, 5), (-100, 0, 7), (i32::MIN, 3, 7), (i32::MAX, 0, i32::MAX), (-2, 1, i32::MAX)],
+            (1, 0, 3), vec![(-5, 2, 4), (9, 0, 3)], vec![(1, 5, 2), (1, 0, 0)]);
+        });
+        sc.spawn(move |_| {
+        lift_all!(s, u8, "u8", signed: no, float: no,
+            vec![(5, 0, 3), (250, 3, 200), (0, 1, 2), (255, 0, 255), (7, 2, 5), (200, 100, 101), (1, 0, 1), (128, 0, 127), (13, 7, 11), (0, 0, 1), (99, 98, 100), (254, 1, 255), (3, 1, 4)],
+            (1, 0, 3), vec![(250, 2, 4), (9, 0, 3)], vec![(1, 5, 2), (1, 0, 0)]);
+        });
+        sc.spawn(move |_| {
+        lift_all!(s, i64, "i64", signed: yes, float: no,
+            vec![(5, 0, 3), (-4, 2, 5), (0, 0, 1), (-1, 0, 10), (11, 0, 10), (3, 1, 4), (-7, 3, 9), (100, 1, 2), (2, 2, 5), (-100, 0, 7), (i64::MIN, 3, 7), (i64::MAX, 0, i64::MAX), (-2, 1, i64::MAX)],
+            (1, 0, 3), vec![(-5, 2, 4), (9, 0, 3)], vec![(1, 5, 2), (1, 0, 0)]);
+        });
+        let w = |t: (i16, i16, i16)| (Wrapping(t.0), Wrapping(t.1), Wrapping(t.2));
+        sc.spawn(move |_| {
+        lift_all!(s, Wrapping<i16>, "Wrapping<i16>", signed: yes, float: no,
+            vec![(5, 0, 3), (-4, 2, 5), (0, 0, 1), (-1, 0, 10), (11, 0, 10), (3, 1, 4), (-7, 3, 9), (100, 1, 2), (2, 2, 5), (-100, 0, 7), (i16::MIN, 3, 7), (i16::MAX, 0, i16::MAX), (-2, 1, i16::MAX)].into_iter().map(w).collect(),
+            w((1, 0, 3)), vec![w((-5, 2, 4)), w((9, 0, 3))], vec![w((1, 5, 2)), w((1, 0, 0))]);
+        });
+        sc.spawn(move |_| {
+        lift_all!(s, f32, "f32", signed: yes, float: yes,
+            vec![(5.5, 0., 3.), (-4.25, 2., 5.), (0., 0., 1.), (-0.5, 0., 10.), (11., 0., 10.), (3., 1., 4.), (-7.25, 3., 9.), (100., 1., 2.), (2., 2., 5.), (-100., 0., 7.), (1e7, 0.5, 360.), (0.75, 0.25, 0.5), (-1e-20, 1e-3, 6.2831855)],
+            (1., 0., 3.), vec![(-5., 2., 4.), (9.5, 0., 3.)], vec![(1., 5., 2.), (1., 0., 0.)]);
+        });
+        sc.spawn(move |_| {
+        lift_all!(s, f64, "f64", signed: yes, float: yes,
+            vec![(5.5, 0., 3.), (-4.25, 2., 5.), (0., 0., 1.), (-0.5, 0., 10.), (11., 0., 10.), (3., 1., 4.), (-7.25, 3., 9.), (100., 1., 2.), (2., 2., 5.), (-100., 0., 7.), (1e7, 0.5, 360.), (0.75, 0.25, 0.5), (-1e-20, 1e-3, 6.283185307179586)],
+            (1., 0., 3.), vec![(-5., 2., 4.), (9.5, 0., 3.)], vec![(1., 5., 2.), (1., 0., 0.)]);
+        });
+        });
+        s.sample(json!({"law": "Vec64(..).wrapped_between(lo, hi).lane_i == value_i.wrapped_between(lo_i, hi_i) for i = 0..64; one bad lane anywhere => panic"}));
     });
     std::process::exit(rep.finish());
 }
